@@ -314,6 +314,16 @@ def case_history(rec, hist):
     bd = Builder()
     b = r = 0
     sizes = {n: (nb, nr) for n, nb, nr in BFS_OPS}
+    taken = []      # cells taken from the builder on the way (the builder goes on being used): (step, cell, bits, refs, depth)
+
+    def check_taken(upto):
+        for j, c, cb, cr, cd in taken:
+            real = 0 if not c.refs else 1 + max(x.get_depth(0) for x in c.refs)
+            if (len(c.bits), len(c.refs)) != (cb, cr) or c.get_depth(0) != cd or real != cd or len(c.bits) > 1023 or len(c.refs) > 4 or real > 1023:
+                rec.violation('bfs-taken-cell', f'history {hist}: the cell taken from the builder after step {j} ({cb} bits / {cr} refs / depth {cd}) is, after step {upto}, '
+                              f'{len(c.bits)} bits / {len(c.refs)} refs / reported depth {c.get_depth(0)} / real depth {real}', 'case_history', {'hist': hist})
+                return False
+        return True
     for i, name in enumerate(hist):
         nb, nr = sizes[name]
         fits = b + nb <= 1023 and r + nr <= 4
@@ -337,6 +347,19 @@ def case_history(rec, hist):
         if (len(bd.bits), len(bd.refs)) != (b, r):
             rec.violation(f'bfs-state:{name}', f'history {hist}: after step {i} builder is {len(bd.bits)}/{len(bd.refs)}, reference {b}/{r}', 'case_history', {'hist': hist})
             return None
+        if not check_taken(i):
+            return None
+        try:
+            c = bd.end_cell()
+        except Exception as e:
+            rec.violation('bfs-end_cell', f'history {hist}: end_cell after step {i} raised {exc_name(e)}: {e}', 'case_history', {'hist': hist})
+            return None
+        taken.append((i, c, b, r, c.get_depth(0)))
+        if (len(c.bits), len(c.refs)) != (b, r):
+            rec.violation('bfs-taken-cell', f'history {hist}: the cell taken after step {i} has {len(c.bits)} bits / {len(c.refs)} refs, builder {b}/{r}', 'case_history', {'hist': hist})
+            return None
+    if not check_taken(len(hist)):
+        return None
     rec.trace()
     return (b, r)
 
